@@ -196,7 +196,10 @@ impl<B, I, const LOG2_ONES_PER_INVENTORY: usize, const LOG2_U64_PER_SUBINVENTORY
     ///
     /// This method is unsafe because it is not possible to guarantee that the
     /// new backend is identical to the old one as a bit vector.
-    pub unsafe fn map<C>(self, f: impl FnOnce(B) -> C) -> SelectAdaptConst<C, I>
+    pub unsafe fn map<C>(
+        self,
+        f: impl FnOnce(B) -> C,
+    ) -> SelectAdaptConst<C, I, LOG2_ONES_PER_INVENTORY, LOG2_U64_PER_SUBINVENTORY>
     where
         C: SelectHinted,
     {
